@@ -43,7 +43,7 @@ int main(void)
 		printf("%d |", (int)r);
 		size_t ip = 0, op = 0;
 		if (r == LZMA_OK) {
-			char *save = NULL; int dead = 0;
+			char *save = NULL; int dead = 0; size_t owed = 0;   // a byte that was offered in a T step and not taken yet: the next action offers it again
 			for (char *st = strtok_r(script, ";", &save); ; st = strtok_r(NULL, ";", &save)) {
 				int last = (st == NULL);
 				char act = last ? 'E' : st[0];
@@ -53,7 +53,22 @@ int main(void)
 					if (lzma_str_to_filters(fs2, &ep, nf, LZMA_STR_ALL_FILTERS, NULL)) { printf(" U:strerr"); continue; }
 					lzma_ret ur = lzma_filters_update(&s, nf); printf(" U:%d", (int)ur); lzma_filters_free(nf, NULL); continue;
 				}
+				if (act == 'T') {
+					// one lzma_code(LZMA_RUN) call with one input byte on offer and exactly <j> bytes of output space: leaves the
+					// encoder wherever that gets it (e.g. inside a partly written Block Header); what follows (an update
+					// request, more input) must still lead to a valid stream
+					size_t olen = (size_t)strtoul(st + 1, NULL, 10), il = n - ip ? 1 : 0; if (olen > OUTCAP - op) olen = OUTCAP - op;
+					uint8_t *ib = malloc(il ? il : 1), *ob = malloc(olen ? olen : 1); memcpy(ib, in + ip, il);
+					s.next_in = ib; s.avail_in = il; s.next_out = ob; s.avail_out = olen;
+					lzma_ret tr = lzma_code(&s, LZMA_RUN);
+					size_t di = il - s.avail_in, dd = olen - s.avail_out; memcpy(out + op, ob, dd); ip += di; op += dd; free(ib); free(ob);
+					if (il && !di) owed = 1; else owed = 0;
+					printf(" T:%d", (int)tr);
+					if (tr != LZMA_OK && tr != LZMA_BUF_ERROR) { r = tr; break; }
+					continue;
+				}
 				size_t add = last ? n - ip : (size_t)strtoul(st + 1, NULL, 10);
+				if (add < owed) add = owed; owed = 0;
 				if (add > n - ip) add = n - ip;
 				lzma_action a = act == 'R' ? LZMA_RUN : act == 'S' ? LZMA_SYNC_FLUSH : act == 'F' ? LZMA_FULL_FLUSH : act == 'B' ? LZMA_FULL_BARRIER : LZMA_FINISH;
 				size_t target = ip + add; int guard = 0, bufs = 0;
